@@ -1754,6 +1754,10 @@ func init() {
 					out = src
 				} else if !src.IsConc() && noActionPossible(src) {
 					out = src
+				} else if r, ok := renderFieldChains(src, a[2], m.ghost["tmplhtml"] != nil); ok {
+					// only actions of the form {{.a.b.c}} over nested maps: the value found is inserted as
+					// it is (text/template), HTML-escaped (html/template, text context)
+					out = r
 				} else {
 					out = strConcat(strConcat(Str{s: "<rendered:"}, src), Str{s: ">"})
 				}
@@ -2295,8 +2299,14 @@ func init() {
 	for _, n := range []string{"New"} {
 		I["html/template."+n] = I["text/template."+n]
 	}
-	for _, n := range []string{"Funcs", "Option", "Parse", "Execute"} {
+	for _, n := range []string{"Funcs", "Option", "Parse"} {
 		I["(*html/template.Template)."+n] = I["(*text/template.Template)."+n]
+	}
+	textExec := I["(*text/template.Template).Execute"]
+	I["(*html/template.Template).Execute"] = func(m *Machine, fr *frame, fn *ssa.Function, a []Value) Value {
+		m.ghost["tmplhtml"] = tTrue
+		defer delete(m.ghost, "tmplhtml")
+		return textExec(m, fr, fn, a)
 	}
 }
 
@@ -2317,4 +2327,78 @@ func jsonCompatible(target, queued types.Type) bool {
 		return types.IdenticalIgnoreTags(target.Underlying(), queued.Underlying())
 	}
 	return false
+}
+
+// renderFieldChains renders a concrete template text whose actions are all plain field chains
+// ({{.a.b}}) over nested maps with concrete string keys. ok=false: something else is in there (the
+// caller falls back to the opaque rendering).
+func renderFieldChains(src Str, data Value, html bool) (Str, bool) {
+	if !src.IsConc() {
+		return Str{}, false
+	}
+	var out Str
+	rest := src.s
+	for {
+		i := strings.Index(rest, "{{")
+		if i < 0 {
+			return strConcat(out, Str{s: rest}), true
+		}
+		out = strConcat(out, Str{s: rest[:i]})
+		j := strings.Index(rest[i:], "}}")
+		if j < 0 {
+			return Str{}, false
+		}
+		action := strings.TrimSpace(rest[i+2 : i+j])
+		rest = rest[i+j+2:]
+		if !strings.HasPrefix(action, ".") || strings.ContainsAny(action, " |()\"$") {
+			return Str{}, false
+		}
+		cur := data
+		for _, name := range strings.Split(action[1:], ".") {
+			if ifc, ok := cur.(Iface); ok {
+				cur = ifc.V
+			}
+			mv, ok := cur.(*MapV)
+			if !ok || mv == nil || name == "" {
+				return Str{}, false
+			}
+			e, ok := mv.conc["s"+name]
+			if !ok {
+				return Str{}, false
+			}
+			cur = e.v
+		}
+		if ifc, ok := cur.(Iface); ok {
+			cur = ifc.V
+		}
+		var val Str
+		switch v := cur.(type) {
+		case Str:
+			val = v
+		case *Term:
+			if !v.IsConst() || v.sort != SInt {
+				return Str{}, false
+			}
+			val = Str{s: v.iv.String()}
+		default:
+			return Str{}, false
+		}
+		if html {
+			if !val.IsConc() {
+				// symbolic bytes: fine as long as none of them can be a character the escaper rewrites
+				for k := 0; k < val.Len(); k++ {
+					b := val.At(k)
+					for _, c := range []byte("\x00\"&'+<>") {
+						cc := big.NewInt(int64(c))
+						if b.IsConst() && b.iv.Cmp(cc) == 0 || !b.IsConst() && (b.lo == nil || b.lo.Cmp(cc) <= 0) && (b.hi == nil || b.hi.Cmp(cc) >= 0) {
+							return Str{}, false
+						}
+					}
+				}
+			} else {
+				val = Str{s: strings.NewReplacer("&", "&amp;", "'", "&#39;", "+", "&#43;", "<", "&lt;", ">", "&gt;", "\"", "&#34;", "\x00", "\uFFFD").Replace(val.s)}
+			}
+		}
+		out = strConcat(out, val)
+	}
 }
